@@ -5,3 +5,9 @@ claim("C20",
   "Random exploration of segment lists (1-8 segments: empty, unicode, very long, digest look-alikes, split/joined neighbours) checks MerklePath/AddToMerkle against a reference fold written from the property text, trailing-slash neutrality, pairwise distinctness under six structural mutations, and that the Path returned by the real filetree PostFile handler equals the address computed from the plain path. Falsification only: passing means no counterexample among the generated cases.",
   "sha256 collision resistance is assumed for the distinctness clause; segments never contain '/' (a '/' is by definition a separator); the reference fold is the specification as read from the property statement and x/filetree/README.md.",
   "DESIGN.md section 4 C20")
+
+claim("C13",
+  "property-based test (rapid): generated mint parameter sets and block runs on a fork of the real app; invariant over full balance/supply snapshots per block; pure differential of GetMintForBlock against exact big.Rat arithmetic",
+  "For generated parameter sets (TokensPerBlock 0..1e12, MintDecrease below/at/above blocks-per-year, ratio triples with sum <= 100, three denoms, three stipend accounts) 1-60 consecutive jklmint BeginBlocks run on the real keepers; each block is checked for: no panic, supply delta E >= 0 and <= previous E, exact floor(E*pct/100) credits to fee collector / dev grants / stipend, module remainder (< 3 when ratios sum to 100), no other balance change, MintedBlock(h) == E. Falsification only.",
+  "Parameters are written with the keeper's SetParams standing in for a governance change, restricted to values the module's validators accept; ratios sum <= 100 and the stipend address is an ordinary account (as the property quantifier states). Other modules' BeginBlockers are not run in this check.",
+  "DESIGN.md section 4 C13")
